@@ -1,8 +1,11 @@
 (* C06  Escaped markers are literal; marker-free strings are untouched.  Statements only; proofs
    in Proofs/ParserFacts.v about Model/Parser.v (transliteration of the nom grammar).
-   The grammar itself is tied to the code by the exhaustive comparison of parse trees over
-   {$ { } [ \ : a} (length <= 6 quick, <= 8 thorough) through the Token hook. *)
-From RV Require Import Model.Parser Model.Interp Proofs.ParserFacts.
+   General shape theorems (Proofs/ParserShape.v): every template of plain text and simple
+   references, of any length, parses to exactly its pieces in order; an unclosed or empty
+   reference after any template is a parse error; an escaped opening marker between plain
+   texts is literal text.  The grammar itself is tied to the code by the exhaustive comparison of
+   parse trees over {$ { } [ \ : a} (length <= 6 quick, <= 8 thorough) through the Token hook. *)
+From RV Require Import Model.Parser Model.Interp Proofs.ParserFacts Proofs.ParserShape.
 
 (** A string containing no reference marker is not parsed and renders unchanged, as a literal. *)
 Theorem C06_marker_free_string_untouched :
@@ -25,6 +28,43 @@ Eval cbv in "ASSUMPTIONS-OF C06_parser_terminates"%string. Print Assumptions C06
 Theorem C06_whole_string_consumed : forall s r t, parse_ref s = POk r t -> r = "".
 Proof. exact parse_ref_all_consumed. Qed.
 Eval cbv in "ASSUMPTIONS-OF C06_whole_string_consumed"%string. Print Assumptions C06_whole_string_consumed.
+
+(** Every string whose unescaped ${ are closed by } around a non-empty path is accepted, with the
+    pieces in order: for every template made of plain text (no backslash, dollar or brace) and
+    simple references ${path} with a plain non-empty path -- any number of pieces, any lengths --
+    the parse is exactly the list of pieces ([alternating]: two texts in a row are one text). *)
+Theorem C06_templates_parse_to_their_pieces :
+  forall g l c k, Forall seg_ok (g :: l) -> alternating (g :: l) -> In (SRef c k) (g :: l) ->
+    token_parse (segs_str (g :: l)) = Parsed (match map seg_tok (g :: l) with [t] => t | ts => TComb ts end).
+Proof. exact template_parse. Qed.
+Eval cbv in "ASSUMPTIONS-OF C06_templates_parse_to_their_pieces"%string. Print Assumptions C06_templates_parse_to_their_pieces.
+
+(** An unclosed reference (after any template, with any plain text after the marker) and an empty
+    reference (whatever follows) are parse errors: not passed through, not mis-split. *)
+Theorem C06_unclosed_reference_is_an_error :
+  forall l k, Forall seg_ok l -> alternating l -> plain k ->
+    token_parse (segs_str l ++ "${" ++ k) = ParseError.
+Proof. exact unclosed_reference_is_error. Qed.
+Eval cbv in "ASSUMPTIONS-OF C06_unclosed_reference_is_an_error"%string. Print Assumptions C06_unclosed_reference_is_an_error.
+
+Theorem C06_empty_reference_is_an_error :
+  forall l rest, Forall seg_ok l -> alternating l ->
+    token_parse (segs_str l ++ "${}" ++ rest) = ParseError.
+Proof. exact empty_reference_is_error. Qed.
+Eval cbv in "ASSUMPTIONS-OF C06_empty_reference_is_an_error"%string. Print Assumptions C06_empty_reference_is_an_error.
+
+(** An escaped opening marker between plain texts of any length is literal text: the whole string
+    is one literal holding the marker without the backslash, never a reference. *)
+Theorem C06_escaped_marker_is_literal :
+  forall p1 p2, plain p1 -> plain p2 ->
+    token_parse (p1 ++ bs ++ "${" ++ p2) = Parsed (TLit (p1 ++ "${" ++ p2)).
+Proof. exact escaped_marker_is_literal. Qed.
+Eval cbv in "ASSUMPTIONS-OF C06_escaped_marker_is_literal"%string. Print Assumptions C06_escaped_marker_is_literal.
+
+Example C06_template_nonvacuous :
+  token_parse "pre-${a:b}-mid-${c}" =
+    Parsed (TComb [TLit "pre-"; TRef [TLit "a:b"]; TLit "-mid-"; TRef [TLit "c"]]).
+Proof. exact template_example. Qed.
 
 (** The escape table of the property, evaluated in the kernel on the model parser:
     \${ and \$[ are literal markers, \} is a literal brace inside a reference, a doubled
